@@ -43,8 +43,7 @@ pub struct Cfg {
     pub ext_cap: i64,
     pub only_increase: bool,
     pub merge_window: i64,
-    /// Fault-injecting sub-batch (duplication, byzantine twins, clock regression / extreme jumps, injected CPI
-    /// failure). Execution does not depend on this flag; it only labels violation keys.
+    /// Fault-injecting sub-batch (duplication, byzantine twins, extreme clock jumps, injected CPI failure). Execution does not depend on this flag; it only labels violation keys.
     pub faults: bool,
     /// Generation profile (recorded for the evidence samples).
     pub profile: String,
@@ -114,7 +113,7 @@ pub struct TradeStep {
 
 #[derive(Clone, Debug, PartialEq, Eq, Serialize, Deserialize)]
 pub enum ClockStep {
-    /// Relative move; negative = regression (fault).
+    /// Relative move forward (negative values are treated as 0: the cluster clock is monotone).
     Rel(i64),
     /// Move forward to `start_time + offset` (no-op if that is in the past).
     ToStart(i64),
@@ -288,8 +287,7 @@ impl CompetitionSim {
         }
         let p_byz = if faults && rp.chance(2, 3) { rp.range(1, 15) } else { 0 }; // percent of trades
         let p_legit_twist = rp.range(0, 10); // percent
-        let p_regress = if faults && rp.chance(1, 2) { rp.range(5, 40) } else { 0 }; // percent of clock steps
-        let p_extreme = if faults && rp.chance(1, 6) { 3 } else { 0 };
+        let p_extreme = if faults && rp.chance(1, 6) { 3 } else { 0 }; // percent of clock steps
         let p_fail_cpi = if faults && rp.chance(1, 2) { 25 } else { 0 };
         let p_lazy = *rp.pick(&[100u64, 100, 95, 80, 50]);
         // active traders: sometimes fewer than configured at first, so that latecomers meet a full board
@@ -365,9 +363,7 @@ impl CompetitionSim {
             }
             x -= w_trade;
             if x < w_clock {
-                let c = if p_regress > 0 && rp.below(100) < p_regress {
-                    ClockStep::Rel(-rp.range_i64(1, 60))
-                } else if p_extreme > 0 && rp.below(100) < p_extreme {
+                let c = if p_extreme > 0 && rp.below(100) < p_extreme {
                     ClockStep::Rel(*rp.pick(&[i64::MAX / 2, i64::MAX, 1i64 << 50]))
                 } else {
                     let late_in_plan = steps.len() * 3 > len * 2;
@@ -754,18 +750,14 @@ impl<'a> Sim<'a> {
     pub fn clock(&mut self, c: &ClockStep) {
         let now = self.w.clock.unix_timestamp;
         let target: i64 = match c {
-            ClockStep::Rel(d) => now.saturating_add(*d),
+            // the cluster clock is monotone (Solana clamps `unix_timestamp` to be non-decreasing)
+            ClockStep::Rel(d) => now.saturating_add((*d).max(0)),
             ClockStep::ToStart(o) => self.m.start.saturating_add(*o).max(now),
             ClockStep::ToEnd(o) => self.m.end.saturating_add(*o).max(now),
         };
         let d = target as i128 - now as i128;
-        if d < 0 {
-            self.m.clock_regressed = true;
-            self.obs.fault("clock_regression");
-            if now > self.m.end && target <= self.m.end {
-                self.obs.probe("regressed_back_into_window");
-            }
-        } else if d > (1i128 << 45) {
+        assert!(d >= 0, "clock must be monotone");
+        if d > (1i128 << 45) {
             self.obs.fault("clock_extreme_jump");
         } else {
             self.obs.sim_seconds = self.obs.sim_seconds.saturating_add(d as u64);
@@ -820,7 +812,6 @@ pub fn deploy_competition(w: &mut World, payer: &Pubkey, cfg: &Cfg, obs: &mut Ob
         parts: Default::default(),
         shown: Default::default(),
         faults: cfg.faults,
-        clock_regressed: false,
         reopened: false,
         extensions: 0,
     })
@@ -987,6 +978,6 @@ impl Scenario for CompetitionSim {
     }
 
     fn rule(&self) -> String {
-        "Per run: swarm-drawn competition parameters (t0, start delay, duration 1s..i64::MAX/4, threshold 1..u128::MAX, extension duration/cap incl. i64::MAX, only_count_increase, merge window 1s..i64::MAX), 2-12 traders, one of 5 volume profiles (tiny integers with many ties / around the threshold / log-uniform / saturating / mixed) and 4 clock modes (stall / 1s / merge-window sized / duration sized). Plan = 5-60 steps mostly, tail to 400 (quick) / 2500 (thorough): on_executed deliveries (position size before/after, dt, lazy participant creation, failed-order and no-event variants), clock moves (relative, to start+-k, to the current end+-k), create / close participant, on_created/on_updated/on_closed. Odd runs are the fault sub-batch: duplicate delivery of an earlier callback, byzantine twins (wrong event user, event not owned by the store, wrong action kind / version / extra count, unsigned or stranger authority, other trader's participant, wrong bump), clock regression (1-60 s) and extreme jumps, injected CPI failure in participant creation. A run is distinct by its parameter set + plan; non-trivial when at least one trade is counted (probe counted_trade).".into()
+        "Per run: swarm-drawn competition parameters (t0, start delay, duration 1s..i64::MAX/4, threshold 1..u128::MAX, extension duration/cap incl. i64::MAX, only_count_increase, merge window 1s..i64::MAX), 2-12 traders, one of 5 volume profiles (tiny integers with many ties / around the threshold / log-uniform / saturating / mixed) and 4 clock modes (stall / 1s / merge-window sized / duration sized). Plan = 5-60 steps mostly, tail to 400 (quick) / 2500 (thorough): on_executed deliveries (position size before/after, dt, lazy participant creation, failed-order and no-event variants), clock moves (relative, to start+-k, to the current end+-k), create / close participant, on_created/on_updated/on_closed. Odd runs are the fault sub-batch: duplicate delivery of an earlier callback, byzantine twins (wrong event user, event not owned by the store, wrong action kind / version / extra count, unsigned or stranger authority, other trader's participant, wrong bump), extreme forward clock jumps (2^50 s .. i64::MAX), injected CPI failure in participant creation. The clock is monotone as on Solana (stalls, coarse steps, jumps; never backwards). A run is distinct by its parameter set + plan; non-trivial when at least one trade is counted (probe counted_trade).".into()
     }
 }
